@@ -175,10 +175,124 @@ pub fn check_requests(c: &Case, addr: std::net::SocketAddr, ctx: Option<&Ctx>) -
             }
         }
     }
+    if fails.is_empty() {
+        fails.extend(check_keepalive(c, addr, ctx));
+    }
+    fails
+}
+
+/// reads one Content-Length framed response from a keep-alive connection: (status, body)
+fn read_one_response(s: &mut std::net::TcpStream, buf: &mut Vec<u8>) -> Result<(u16, String), String> {
+    use std::io::Read;
+    let mut tmp = [0u8; 4096];
+    loop {
+        // Humphrey appends a stray CRLF to non-empty bodies (known finding of C01/C07): skip it between messages
+        while buf.starts_with(b"\r\n") {
+            buf.drain(..2);
+        }
+        if let Some(p) = buf.windows(4).position(|w| w == b"\r\n\r\n") {
+            let head = String::from_utf8_lossy(&buf[..p]).to_string();
+            let status: u16 = head.split(' ').nth(1).and_then(|x| x.parse().ok()).unwrap_or(0);
+            let cl: usize = head.lines().filter_map(|l| l.split_once(':')).find(|(n, _)| n.eq_ignore_ascii_case("content-length")).and_then(|(_, v)| v.trim().parse().ok()).unwrap_or(0);
+            if buf.len() >= p + 4 + cl {
+                let body = String::from_utf8_lossy(&buf[p + 4..p + 4 + cl]).to_string();
+                buf.drain(..p + 4 + cl);
+                return Ok((status, body));
+            }
+        }
+        match s.read(&mut tmp) {
+            Ok(0) => return Err(format!("connection closed after {} bytes of a response", buf.len())),
+            Ok(n) => buf.extend_from_slice(&tmp[..n]),
+            Err(e) => return Err(format!("read: {}", e)),
+        }
+    }
+}
+
+/// The same plain requests again, several per keep-alive connection: the choice may depend on the Host header, the path
+/// and the registration order only, not on what was asked before on the same connection.
+fn check_keepalive(c: &Case, addr: std::net::SocketAddr, ctx: Option<&Ctx>) -> Vec<Fail> {
+    use std::io::Write;
+    let mut fails = Vec::new();
+    let plain: Vec<&ReqCase> = c.requests.iter().filter(|r| !r.websocket).collect();
+    let mut k = 0usize;
+    let mut group_no = 0usize;
+    while k < plain.len() {
+        let len = 2 + group_no % 4;
+        let group = &plain[k..(k + len).min(plain.len())];
+        k += len;
+        group_no += 1;
+        if group.len() < 2 {
+            break;
+        }
+        let mut stream = match crate::common::net::connect_retry(addr, Duration::from_secs(5)) {
+            Ok(s) => s,
+            Err(e) => return vec![Fail::new("harness-connect", e.to_string())],
+        };
+        let _ = stream.set_read_timeout(Some(Duration::from_secs(10)));
+        let mut buf = Vec::new();
+        let mut prev: Option<&ReqCase> = None;
+        for (gi, r) in group.iter().enumerate() {
+            let (want, _) = reference_route(c, r);
+            let target = match &r.query {
+                Some(q) => format!("{}?{}", r.path, q),
+                None => r.path.clone(),
+            };
+            let mut req = format!("GET {} HTTP/1.1\r\n", target);
+            if let Some(h) = &r.host {
+                req.push_str(&format!("Host: {}\r\n", h));
+            }
+            req.push_str(if gi + 1 == group.len() { "Connection: close\r\n\r\n" } else { "Connection: keep-alive\r\n\r\n" });
+            if let Some(cx) = ctx {
+                let differs = prev.map_or(false, |p| p.host != r.host);
+                cx.case(hash_of(&(format!("{:?}", c.hosts), format!("{:?}", c.default), "keep-alive", format!("{:?}", prev), &req)), differs, &[if differs { "keep-alive:host-changes" } else { "keep-alive:same-host" }]);
+            }
+            if stream.write_all(req.as_bytes()).is_err() {
+                fails.push(Fail::new("harness-exchange", "write on keep-alive connection failed"));
+                return fails;
+            }
+            let (status, body) = match read_one_response(&mut stream, &mut buf) {
+                Ok(x) => x,
+                Err(e) => {
+                    fails.push(fail!("keepalive-no-response", "request {} of a keep-alive connection (Host {:?} path {:?}) got no complete response: {}", gi + 1, r.host, target, e));
+                    return fails;
+                }
+            };
+            let ok = match want {
+                Some((h, i)) => status == 200 && body == ident(h, i, false),
+                None => status == 404,
+            };
+            if !ok {
+                fails.push(fail!(
+                    "keepalive-wrong-handler",
+                    "request {} on a keep-alive connection (Host {:?} path {:?}, previous request on the connection: Host {:?} path {:?}) answered {} {:?}, the rule selects {:?}; hosts {:?} default {:?}",
+                    gi + 1,
+                    r.host,
+                    target,
+                    prev.map(|p| p.host.clone()),
+                    prev.map(|p| p.path.clone()),
+                    status,
+                    body,
+                    want.map(|(h, i)| ident(h, i, false)),
+                    c.hosts.iter().map(|h| (&h.host, &h.routes)).collect::<Vec<_>>(),
+                    c.default.routes
+                ));
+                return fails;
+            }
+            prev = Some(r);
+        }
+    }
     fails
 }
 
 const SEGS: &[&str] = &["a", "b", "ab", "api", "x", "aa"];
+
+/// request paths also use segments with a literal `*` (an ordinary character in a request target: only a pattern's `*`
+/// can absorb it)
+const REQ_SEGS: &[&str] = &["a", "b", "ab", "api", "x", "aa", "*", "a*", "*b"];
+
+fn arb_req_path() -> impl Strategy<Value = String> {
+    proptest::collection::vec((0usize..REQ_SEGS.len()).prop_map(|i| REQ_SEGS[i]), 0..4).prop_map(|v| format!("/{}", v.join("/")))
+}
 
 fn arb_path() -> impl Strategy<Value = String> {
     proptest::collection::vec((0usize..SEGS.len()).prop_map(|i| SEGS[i]), 0..4).prop_map(|v| format!("/{}", v.join("/")))
@@ -220,7 +334,7 @@ fn arb_sub(host: impl Strategy<Value = String>) -> impl Strategy<Value = SubSpec
 pub fn arb_case() -> impl Strategy<Value = Case> {
     let req = (
         prop_oneof![1 => Just(None), 6 => (0usize..HOSTS.len()).prop_map(|i| Some(HOSTS[i].to_string()))],
-        arb_path(),
+        prop_oneof![4 => arb_path(), 1 => arb_req_path()],
         proptest::option::of(prop_oneof![Just("q=1".to_string()), Just("a/b=*".to_string()), Just("x?y".to_string())]),
         prop_oneof![3 => Just(false), 1 => Just(true)],
     )
@@ -230,7 +344,7 @@ pub fn arb_case() -> impl Strategy<Value = Case> {
 
 #[cfg(not(hvt))]
 pub fn run(ctx: &Ctx) {
-    ctx.rule("applications with 0..4 host sub-apps (host patterns literal / *.x / x.* / infix / adjacent stars, never exactly `*`) with 0..6 HTTP routes and 0..3 WebSocket routes each plus a default app, patterns over a tiny segment alphabet so that they overlap and shadow; 30 requests per application over Host {absent, exact, wildcard-matching, with port, non-matching, matching several hosts} x paths x optional query x plain/WebSocket upgrade; every handler answers with its identity; oracle = reference router (reference glob matcher + first host, first route, else default, else 404 / closed). Non-trivial = more than one candidate host or route matches, or the host matches but falls through to the default app; distinct by (application, request)");
+    ctx.rule("applications with 0..4 host sub-apps (host patterns literal / *.x / x.* / infix / adjacent stars, never exactly `*`) with 0..6 HTTP routes and 0..3 WebSocket routes each plus a default app, patterns over a tiny segment alphabet so that they overlap and shadow; 30 requests per application over Host {absent, exact, wildcard-matching, with port, non-matching, matching several hosts} x paths x optional query x plain/WebSocket upgrade; every handler answers with its identity; the plain requests are sent once each on a fresh connection and again in groups of 2..5 on keep-alive connections (the choice must not depend on earlier requests of the connection); oracle = reference router (reference glob matcher + first host, first route, else default, else 404 / closed). Non-trivial = more than one candidate host or route matches, or the host matches but falls through to the default app; distinct by (application, request)");
     ctx.assume("requests go over real loopback sockets to a real App (threaded runtime); WebSocket handlers write their identity on the raw stream");
     let cases = ctx.tier.pick(1600u32, 40000u32);
     let nshards = 16;
